@@ -71,9 +71,12 @@ Check (C11_agree_sound : forall files builtins r,
   agree (Case files builtins r) = true ->
   match r with
   | ROk out => resolve_files files builtins = inr out
-  | RErr e dg => resolve_files files builtins = inl e /\ dg = Some (diag_pos e)
+  | RErr e dg info msg => resolve_files files builtins = inl e /\ dg = Some (diag_pos e) /\ msg = error_message e
   | RPanic => False
   end).
+Check (C11_sort_is_stable_sort : forall l,
+  Sorted entry_le (sort_by_pos l) /\ Permutation (sort_by_pos l) l /\
+  forall q, filter (same_linecol q) (sort_by_pos l) = filter (same_linecol q) l).
 
 Print Assumptions C11_no_extension_survives.
 Print Assumptions C11_success_form.
@@ -94,3 +97,4 @@ Print Assumptions C11_files_concatenate.
 Print Assumptions C11_holds_sound.
 Print Assumptions C11_spec_ok_b_sound.
 Print Assumptions C11_agree_sound.
+Print Assumptions C11_sort_is_stable_sort.
